@@ -52,8 +52,9 @@ impl Condvar {
         // Release the lock
         mutex.release_lock();
 
-        // Disable the current thread
-        rt::park(location);
+        // Disable the current thread until it is notified. (This must not go
+        // through `park`: a stored `unpark` is not a notification.)
+        rt::block(location);
 
         // Acquire the lock again
         mutex.acquire_lock(location);
@@ -72,7 +73,7 @@ impl Condvar {
             trace!(state = ?self.state, ?thread, "Condvar::notify_one");
 
             if let Some(thread) = thread {
-                execution.threads.unpark(thread);
+                execution.threads.wake(thread);
             }
         })
     }
@@ -87,7 +88,7 @@ impl Condvar {
             trace!(state = ?self.state, threads = ?state.waiters, "Condvar::notify_all");
 
             for thread in state.waiters.drain(..) {
-                execution.threads.unpark(thread);
+                execution.threads.wake(thread);
             }
         })
     }
